@@ -52,10 +52,8 @@ def bernstein (size : Nat) (nm : Name) : Nat :=
 structure St where
   nfcT : List (Name × Name) := []
   legT : List (Name × Bool) := []
-  files : List (Option File) := [none, none]
-  sfiles : List (Option SFile) := [none, none]
-  disks : List (Option SHdr) := [none, none]
-  fmts : List Nat := [1, 1]
+  w : World := World.init 2
+  sw : SWorld := SWorld.init 2
 
 def St.env (st : St) : Env :=
   { h := bernstein,
@@ -131,23 +129,20 @@ def tabDump (f : File) : String :=
   s!"D{showTab f.hdr.dims.tab} V{showTab f.hdr.vars.tab} G{showTab f.hdr.gatts.tab}" ++
   String.join (f.hdr.vars.items.map (fun v => " A" ++ showTab v.atts.tab))
 
-def getSlot {α : Type} (l : List (Option α)) (s : Nat) : Option α := (l[s]?).getD none
-
 def both (m sp : String) : String := if m == sp then m ++ " ## =" else m ++ " ## " ++ sp
 
 def parseInts (l : List String) : List Int := l.filterMap String.toInt?
 
-/-- apply a mutating operation to slot `s` of model and spec -/
-def St.mutate (st : St) (s : Nat) (fm : File → File × String) (fs : SFile → SFile × String) : St × String :=
-  match getSlot st.files s, getSlot st.sfiles s with
-  | some f, some sf =>
-    let (f', rm) := fm f
-    let (sf', rs) := fs sf
-    ({ st with files := st.files.set s (some f'), sfiles := st.sfiles.set s (some sf') }, both rm rs)
-  | _, _ => (st, "closed")
+/-- run one operation of the proved step functions `wstep` (model) and `swstep` (reference model) -/
+def St.exec (st : St) (E : Env) (s : Nat) (op : MOp) (withId : Bool) (needOpen : Bool := true) : St × String :=
+  if needOpen ∧ (st.w.file s).isNone then (st, "closed") else
+  let (w', e, id) := wstep E st.w op
+  let (sw', se, sid) := swstep E st.sw op
+  let fmt := fun (e id : Int) => if withId then s!"{e} {id}" else s!"{e}"
+  ({ st with w := w', sw := sw' }, both (fmt e id) (fmt se sid))
 
 def St.query (st : St) (s : Nat) (fm : File → String) (fs : SFile → String) : St × String :=
-  match getSlot st.files s, getSlot st.sfiles s with
+  match st.w.file s, st.sw.file s with
   | some f, some sf => (st, both (fm f) (fs sf))
   | _, _ => (st, "closed")
 
@@ -157,77 +152,38 @@ def int! (s : String) : Int := s.toInt?.getD 0
 def step (st : St) (line : String) : St × String :=
   match line.trimAscii.toString.splitOn " " with
   | ["CREATE", s, fmt, hd, hv, hg, ha] =>
-    let c : Cfg := ⟨nat! hd, nat! hv, nat! hg, nat! ha, nat! fmt⟩
-    ({ st with files := st.files.set (nat! s) (some (create c)),
-               sfiles := st.sfiles.set (nat! s) (some (sCreate (nat! fmt))),
-               fmts := st.fmts.set (nat! s) (nat! fmt),
-               disks := st.disks.set (nat! s) none }, "0 ## =")
+    st.exec st.env (nat! s) (.create (nat! s) ⟨nat! hd, nat! hv, nat! hg, nat! ha, nat! fmt⟩) false false
   | ["OPEN", s, w, hd, hv, hg, ha] =>
-    let fmt := (st.fmts[nat! s]?).getD 1
-    let c : Cfg := ⟨nat! hd, nat! hv, nat! hg, nat! ha, fmt⟩
-    match getSlot st.disks (nat! s) with
-    | none => (st, "nodisk")
-    | some d =>
-      ({ st with files := st.files.set (nat! s) (some (openFile st.env c d (w == "0"))),
-                 sfiles := st.sfiles.set (nat! s) (some (sOpen fmt d (w == "0"))) }, "0 ## =")
-  | ["CLOSE", s] =>
-    match getSlot st.files (nat! s), getSlot st.sfiles (nat! s) with
-    | some f, some sf =>
-      let d := close f
-      let agree := d == sClose sf
-      ({ st with files := st.files.set (nat! s) none, sfiles := st.sfiles.set (nat! s) none,
-                 disks := st.disks.set (nat! s) d }, if agree then "0 ## =" else "0 ## disk-differs")
-    | _, _ => (st, "closed")
-  | ["ENDDEF", s] =>
-    st.mutate (nat! s) (fun f => let r := enddef f; (r.1, toString r.2)) (fun f => let r := sEnddef f; (r.1, toString r.2))
-  | ["REDEF", s] =>
-    st.mutate (nat! s) (fun f => let r := redef f; (r.1, toString r.2)) (fun f => let r := sRedef f; (r.1, toString r.2))
+    st.exec st.env (nat! s) (.openF (nat! s) (nat! hd) (nat! hv) (nat! hg) (nat! ha) (w == "1")) false false
+  | ["CLOSE", s] => st.exec st.env (nat! s) (.close (nat! s)) false
+  | ["ENDDEF", s] => st.exec st.env (nat! s) (.enddef (nat! s)) false
+  | ["REDEF", s] => st.exec st.env (nat! s) (.redef (nat! s)) false
   | ["DEFDIM", s, name, size] =>
     let (st, raw) := st.name name
-    let E := st.env
-    st.mutate (nat! s) (fun f => let r := defDim E f raw (int! size); (r.1, s!"{r.2.1} {r.2.2}"))
-                       (fun f => let r := sDefDim E f raw (int! size); (r.1, s!"{r.2.1} {r.2.2}"))
+    st.exec st.env (nat! s) (.defDim (nat! s) raw (int! size)) true
   | ["RENDIM", s, dimid, name] =>
     let (st, raw) := st.name name
-    let E := st.env
-    st.mutate (nat! s) (fun f => let r := renameDim E f (int! dimid) raw; (r.1, toString r.2))
-                       (fun f => let r := sRenameDim E f (int! dimid) raw; (r.1, toString r.2))
+    st.exec st.env (nat! s) (.renameDim (nat! s) (int! dimid) raw) false
   | "DEFVAR" :: s :: name :: xtype :: _n :: dimids =>
     let (st, raw) := st.name name
-    let E := st.env
-    st.mutate (nat! s) (fun f => let r := defVar E f raw (int! xtype) (parseInts dimids); (r.1, s!"{r.2.1} {r.2.2}"))
-                       (fun f => let r := sDefVar E f raw (int! xtype) (parseInts dimids); (r.1, s!"{r.2.1} {r.2.2}"))
+    st.exec st.env (nat! s) (.defVar (nat! s) raw (int! xtype) (parseInts dimids)) true
   | ["RENVAR", s, varid, name] =>
     let (st, raw) := st.name name
-    let E := st.env
-    st.mutate (nat! s) (fun f => let r := renameVar E f (int! varid) raw; (r.1, toString r.2))
-                       (fun f => let r := sRenameVar E f (int! varid) raw; (r.1, toString r.2))
+    st.exec st.env (nat! s) (.renameVar (nat! s) (int! varid) raw) false
   | "PUTATT" :: s :: varid :: name :: api :: xtype :: _n :: vals =>
     let (st, raw) := st.name name
-    let E := st.env
-    st.mutate (nat! s)
-      (fun f => let r := putAtt E f (int! varid) raw (api == "T") (int! xtype) (parseInts vals); (r.1, toString r.2))
-      (fun f => let r := sPutAtt E f (int! varid) raw (api == "T") (int! xtype) (parseInts vals); (r.1, toString r.2))
+    st.exec st.env (nat! s) (.putAtt (nat! s) (int! varid) raw (api == "T") (int! xtype) (parseInts vals)) false
   | ["RENATT", s, varid, name, newname] =>
     let (st, raw) := st.name name
     let (st, raw2) := st.name newname
-    let E := st.env
-    st.mutate (nat! s) (fun f => let r := renameAtt E f (int! varid) raw raw2; (r.1, toString r.2))
-                       (fun f => let r := sRenameAtt E f (int! varid) raw raw2; (r.1, toString r.2))
+    st.exec st.env (nat! s) (.renameAtt (nat! s) (int! varid) raw raw2) false
   | ["DELATT", s, varid, name] =>
     let (st, raw) := st.name name
-    let E := st.env
-    st.mutate (nat! s) (fun f => let r := delAtt E f (int! varid) raw; (r.1, toString r.2))
-                       (fun f => let r := sDelAtt E f (int! varid) raw; (r.1, toString r.2))
+    st.exec st.env (nat! s) (.delAtt (nat! s) (int! varid) raw) false
   | ["COPYATT", s, varid, name, s2, varid2] =>
     let (st, raw) := st.name name
-    let E := st.env
-    let same := nat! s == nat! s2
-    match getSlot st.files (nat! s), getSlot st.sfiles (nat! s) with
-    | some fin, some sin =>
-      st.mutate (nat! s2) (fun f => let r := copyAtt E fin (int! varid) raw f (int! varid2) same; (r.1, toString r.2))
-                          (fun f => let r := sCopyAtt E sin (int! varid) raw f (int! varid2) same; (r.1, toString r.2))
-    | _, _ => (st, "closed")
+    if (st.w.file (nat! s2)).isNone then (st, "closed") else
+    st.exec st.env (nat! s) (.copyAtt (nat! s) (int! varid) raw (nat! s2) (int! varid2)) false
   | ["GETATT", s, varid, name, api] =>
     let (st, raw) := st.name name
     let E := st.env
@@ -256,19 +212,15 @@ def step (st : St) (line : String) : St × String :=
     st.query (nat! s) (fun f => dump (modelInq E f)) (fun f => dump (specInq E f))
   | ["DISK", s] =>
     let E := st.env
-    match getSlot st.files (nat! s), getSlot st.sfiles (nat! s) with
-    | some f, some sf =>
-      let fmt := (st.fmts[nat! s]?).getD 1
-      let m := match f.disk with
+    st.query (nat! s)
+      (fun f => match f.disk with
         | none => "nodisk"
-        | some d => dump (modelInq E (openFile E ⟨256, 256, 64, 8, fmt⟩ d true))
-      let sp := match sf.disk with
+        | some d => dump (modelInq E (openFile E ⟨256, 256, 64, 8, f.cfg.format⟩ d true)))
+      (fun sf => match sf.disk with
         | none => "nodisk"
-        | some d => dump (specInq E (sOpen fmt d true))
-      (st, both m sp)
-    | _, _ => (st, "closed")
+        | some d => dump (specInq E (sOpen sf.format d true)))
   | ["TAB", s] =>
-    match getSlot st.files (nat! s) with
+    match st.w.file (nat! s) with
     | some f => (st, tabDump f ++ " ## =")
     | none => (st, "closed")
   | _ => (st, "bad-op")
